@@ -78,6 +78,19 @@ def nonneg(m):
     return all(v >= 0 for v in (m or {}).values())
 
 
+class GetterContract(FnContract):
+    """contract on a @property GETTER that also has a @<name>.setter: vf.common.find_def returns the LAST definition of a name
+    (the setter), so the getter is located by its decorator here"""
+
+    def node(self):
+        from vf.common import find_def
+        cls, name = self.qualname.split(".")[:2]
+        for n in find_def(self.world.file, cls)[1].body:
+            if getattr(n, "name", None) == name and any(getattr(d, "id", None) == "property" for d in getattr(n, "decorator_list", [])):
+                return n
+        raise KeyError(f"{self.world.file}:{self.qualname} property getter")
+
+
 # =====================================================================================================================
 def wire_manager_contracts(plan, tier):
     w = World(WIRES, classes={"WireResourceManager": WM_FIELDS})
@@ -106,7 +119,7 @@ def wire_manager_contracts(plan, tier):
             Case("", {"self": WM, "zeroed": Int, "any_state": Int, "algo_wires": Int, "tight_budget": Bool}, native_call=native_ctor,
                  ensures=lambda o, r, nw: And(nw.self.zeroed == o.zeroed, nw.self.any_state == o.any_state,
                                               nw.self._algo_wires == o.algo_wires, nw.self.tight_budget == o.tight_budget))]),
-        FnContract(w, "WireResourceManager.algo_wires", [
+        GetterContract(w, "WireResourceManager.algo_wires", [
             Case("getter", {"self": WM}, ensures=lambda o, r, nw: r == o.self._algo_wires)]),
         FnContract(w, "WireResourceManager.algo_wires", [
             Case("setter", {"self": WM, "count": Int},
